@@ -309,6 +309,8 @@ func (s *ServerDnsListener) setOptionsRequest(v *commands.SetOptionsRequest, m *
 	} else if v.Closed != nil && *v.Closed == true {
 		log.Debugf("Client-initiated closing of the connection.")
 		_ = s.closeConnection(user)
+	} else if v.DownstreamFragmentSize != nil && (*v.DownstreamFragmentSize == 0 || *v.DownstreamFragmentSize > MaxDownstreamFragmentSize) {
+		resp.Err = commands.BadFrag
 	} else {
 		logString := "SetOptions(user=#%d"
 		logData := make([]interface{}, 0)
